@@ -40,7 +40,9 @@ def dispatch (prop : String) (args : List String) (impl : String) : Verdict :=
   | "C05" =>
     -- "B=" cases run over the bus with a subscription to up.> and are judged by the rebroadcast model of C06
     (match args with
-     | [c] => if c.startsWith "B=" then C06.handle [(c.drop 2).toString] impl else C01.handleC05 args impl
+     | [c] => if c.startsWith "B=" then C06.handle [(c.drop 2).toString] impl
+              else if c.startsWith "M=" then C01.handleC05Move (c.drop 2).toString impl
+              else C01.handleC05 args impl
      | _ => C01.handleC05 args impl)
   | "C06" => C06.handle args impl
   | "C07" => C07.handle args impl
